@@ -84,6 +84,16 @@ def gen_file(rng, boundary=False):
             ax = rng.rint(300, 900) if d == long_d else max(rng.rint(2, 6), orders[d] + 1)
             nk.append(ax + orders[d] + 1)
         prefer = [d for d in range(nd) if d != long_d]
+    if not boundary and not nk and rng.chance(0.1):
+        # an axis with a single coefficient (order 0, two knots) next to larger ones, convolved along exactly that axis
+        nd = rng.choice([2, 2, 3])
+        orders = [rng.rint(0, 3) for _ in range(nd)]
+        one = rng.below(nd)
+        orders[one] = 0
+        for d in range(nd):
+            ax = 1 if d == one else rng.rint(12, 40)
+            nk.append(max(ax, orders[d] + 1) + orders[d] + 1)
+        prefer = [one]
     for d in range(nd if not nk else 0):
         maxax = min(24, max(1, int(round(budget ** (1.0 / nd)))))   # convolve costs naxis^2 * n blossoms, each exponential in order+n
         ax = rng.rint(1, max(1, maxax)) if not rng.chance(0.15) else 1
@@ -108,9 +118,10 @@ def gen_convs(rng, f, k):
     cases: convolve.cpp's factorial(0) runs its loop 2^32 times (defect D4, C14's subject) — ~7 s per call."""
     nd = len(f["orders"])
     cs = [[0, 0]]
-    ok = [d for d in range(nd) if f["orders"][d] >= 1]
+    # (order-0 dimensions are convolved too since factorial(0) was repaired — fix 11b1640; the docstring's restriction is history)
+    ok = list(range(nd))
     if f.get("prefer_conv"):
-        ok = [d for d in f["prefer_conv"] if f["orders"][d] >= 1] or ok
+        ok = list(f["prefer_conv"]) or ok
     for _ in range(k):
         if ok:
             cs.append([rng.choice([2, 2, 3, 3, 4, 5, 6, 7, 8]), rng.choice(ok)])
